@@ -121,8 +121,7 @@ def listMax : List α → Option α
   | [] => none
   | x :: r => some (r.foldl (fun m y => if y < m then m else y) x)
 
-def minCore (N : Nat) : M (Core α) :=
-  if N = 0 then throw .assertFailed else pure
+def minCoreU (N : Nat) : Core α :=
   { σ := ExtState α
     init := { opt := none, q := [] }
     step := fun s v => do
@@ -137,8 +136,7 @@ def minCore (N : Nat) : M (Core α) :=
     out := fun s => pure s.opt
     size := fun s => s.q.length }
 
-def maxCore (N : Nat) : M (Core α) :=
-  if N = 0 then throw .assertFailed else pure
+def maxCoreU (N : Nat) : Core α :=
   { σ := ExtState α
     init := { opt := none, q := [] }
     step := fun s v => do
@@ -293,8 +291,7 @@ def welfordOut (N : Nat) (s : WelfordState α) : M (Option α) := do
 
 def welfordInit : WelfordState α := { q := [], mean := nat 0, m2 := nat 0, count := 0 }
 
-def welfordCore (N : Nat) : M (Core α) :=
-  if N = 0 then throw .assertFailed else pure
+def welfordCoreU (N : Nat) : Core α :=
   { σ := WelfordState α, init := welfordInit, step := welfordStep N, out := welfordOut N,
     size := fun s => s.q.length, acc := fun s => [s.mean, s.variance] }
 
@@ -302,8 +299,7 @@ structure VstState (α : Type) where
   last : α
   wo : WelfordState α
 
-def vstCore (N : Nat) : M (Core α) :=
-  if N = 0 then throw .assertFailed else pure
+def vstCoreU (N : Nat) : Core α :=
   { σ := VstState α
     init := { last := nat 0, wo := welfordInit }
     step := fun s v => do
@@ -320,8 +316,7 @@ def vstCore (N : Nat) : M (Core α) :=
           pure (some o)
     size := fun s => s.wo.q.length }
 
-def vsctCore (N : Nat) : M (Core α) :=
-  if N = 0 then throw .assertFailed else pure
+def vsctCoreU (N : Nat) : Core α :=
   { σ := VstState α
     init := { last := nat 0, wo := welfordInit }
     step := fun s v => do
@@ -500,4 +495,12 @@ def netCore (N : Nat) : Core α where
   out s := pure s.out
   size s := s.q.length
 
+/-! ### constructors with their `assert!` -/
+def minCore (N : Nat) : M (Core α) := if N = 0 then throw .assertFailed else pure (minCoreU N)
+def maxCore (N : Nat) : M (Core α) := if N = 0 then throw .assertFailed else pure (maxCoreU N)
+def welfordCore (N : Nat) : M (Core α) := if N = 0 then throw .assertFailed else pure (welfordCoreU N)
+def vstCore (N : Nat) : M (Core α) := if N = 0 then throw .assertFailed else pure (vstCoreU N)
+def vsctCore (N : Nat) : M (Core α) := if N = 0 then throw .assertFailed else pure (vsctCoreU N)
+
 end SF
+
